@@ -355,6 +355,17 @@ def run_num(w, form, s, a, k, st=None):
     if err is not None:
         return [(sig + ':raises', f"{what} raised {type(err).__name__}: "
                  f"{err}")]
+    if k[0] == 'p' and isinstance(res, Q.Quantity) and type(res) is cls \
+            and res.unit is not u and sc is not None \
+            and w.um.get(res.unit.symbol) is not None \
+            and w.um[res.unit.symbol].scale is not None:
+        # a prefixed unit may be answered in another unit of the type: the
+        # value decides
+        got = O.fr(res.amount) * w.um[res.unit.symbol].scale
+        if isinstance(res.amount, float) or got != want * sc:
+            return [(sig + ':value', f"{what}: got {res!r} = {got} "
+                     f"{tm.ref}, expected {want * sc}")]
+        return []
     if not isinstance(res, Q.Quantity) or type(res) is not cls \
             or res.unit is not u:
         return [(sig + ':keep', f"{what}: result {res!r} does not keep type "
@@ -415,6 +426,15 @@ def part_pow_num(part, amts, nums):
                     for sig, msg in run_num(w, form, s, a, k, st):
                         st.violation(sig, msg, {'world': 'catalogue',
                                                 'num': [form, s, a, k]})
+        # SI prefixes as factors of a unit (every prefix x every unit)
+        for form in ('u*k', 'k*u'):
+            for pfx in O.SI_PREFIX_EXP:
+                st.paths += 1
+                st.state(('prefix', form, s, pfx), nontrivial=True)
+                for sig, msg in run_num(w, form, s, amts[0], 'p:' + pfx, st):
+                    st.violation(sig, msg, {'world': 'catalogue',
+                                            'num': [form, s, amts[0],
+                                                    'p:' + pfx]})
     return st
 
 
